@@ -15,10 +15,38 @@
 #include "sqfs/dir.h"
 #include "sqfs/io.h"
 
+#include "util/rbtree.h"
 #include "util/util.h"
 
 #include <stdlib.h>
 #include <string.h>
+
+/*
+  SquashFS has no hard links to directories, every directory is referred to
+  by exactly one directory entry. An image where a directory can be reached
+  through a second entry (from below itself or from somewhere else) is
+  corrupted, and walking into it every time never ends or takes time
+  exponential in the image size.
+
+  An iterator and all iterators opened from it or from its descendants share
+  one of these: for every directory entered so far, the entry it was entered
+  through. Opening the same entry again is fine.
+ */
+typedef struct {
+	sqfs_object_t base;
+
+	/* maps a directory inode reference to a dir_origin_t */
+	rbtree_t entered;
+} dir_tracker_t;
+
+typedef struct {
+	/* inode reference of the directory that holds the entry, all bits
+	   set if that is the directory the outermost iterator was made for */
+	sqfs_u64 parent_ref;
+
+	/* position of the entry in the listing of that directory */
+	sqfs_u64 index;
+} dir_origin_t;
 
 typedef struct {
 	sqfs_dir_iterator_t base;
@@ -34,12 +62,45 @@ typedef struct {
 	sqfs_dir_reader_t *rd;
 	sqfs_id_table_t *id;
 
-	/* inode references of the directories entered on the way from the
-	   directory the outermost iterator was created for, down to the
-	   one this iterator reads (used to detect directory loops) */
-	sqfs_u64 *parents;
-	size_t num_parents;
+	/* where the current entry is, see dir_origin_t */
+	dir_origin_t pos;
+	dir_tracker_t *tracker;
 } iterator_t;
+
+static int compare_inode_refs(const void *ctx,
+			      const void *lhs, const void *rhs)
+{
+	sqfs_u64 l = *((const sqfs_u64 *)lhs), r = *((const sqfs_u64 *)rhs);
+	(void)ctx;
+
+	return l < r ? -1 : (l > r ? 1 : 0);
+}
+
+static void tracker_destroy(sqfs_object_t *obj)
+{
+	dir_tracker_t *trk = (dir_tracker_t *)obj;
+
+	rbtree_cleanup(&trk->entered);
+	free(trk);
+}
+
+static dir_tracker_t *tracker_create(void)
+{
+	dir_tracker_t *trk = calloc(1, sizeof(*trk));
+
+	if (trk == NULL)
+		return NULL;
+
+	sqfs_object_init(trk, tracker_destroy, NULL);
+
+	if (rbtree_init(&trk->entered, sizeof(sqfs_u64), sizeof(dir_origin_t),
+			compare_inode_refs)) {
+		free(trk);
+		return NULL;
+	}
+
+	return trk;
+}
 
 static int it_next(sqfs_dir_iterator_t *base, sqfs_dir_entry_t **out)
 {
@@ -68,6 +129,7 @@ static int it_next(sqfs_dir_iterator_t *base, sqfs_dir_entry_t **out)
 
 	ent->inode = it->state.ent_ref;
 	sqfs_inode_get_xattr_index(it->inode, &it->xattr_idx);
+	it->pos.index += 1;
 
 	*out = ent;
 	return 0;
@@ -109,7 +171,8 @@ static int it_read_link(sqfs_dir_iterator_t *base, char **out)
 static int it_open_subdir(sqfs_dir_iterator_t *base, sqfs_dir_iterator_t **out)
 {
 	iterator_t *it = (iterator_t *)base, *sub;
-	size_t i;
+	const dir_origin_t *origin;
+	rbtree_node_t *node;
 	int ret;
 
 	*out = NULL;
@@ -122,10 +185,27 @@ static int it_open_subdir(sqfs_dir_iterator_t *base, sqfs_dir_iterator_t **out)
 		return SQFS_ERROR_NOT_DIR;
 	}
 
-	/* a directory that is its own ancestor would never stop recursing */
-	for (i = 0; i < it->num_parents; ++i) {
-		if (it->parents[i] == it->state.ent_ref)
+	if (it->tracker == NULL) {
+		it->tracker = tracker_create();
+		if (it->tracker == NULL)
+			return SQFS_ERROR_ALLOC;
+	}
+
+	/* a directory that was already entered through another entry? */
+	node = rbtree_lookup(&it->tracker->entered, &it->state.ent_ref);
+
+	if (node != NULL) {
+		origin = rbtree_node_value(node);
+
+		if (origin->parent_ref != it->pos.parent_ref ||
+		    origin->index != it->pos.index) {
 			return SQFS_ERROR_LINK_LOOP;
+		}
+	} else {
+		ret = rbtree_insert(&it->tracker->entered,
+				    &it->state.ent_ref, &it->pos);
+		if (ret)
+			return ret;
 	}
 
 	ret = sqfs_dir_iterator_create(it->rd, it->id, it->data, it->xattr,
@@ -134,18 +214,8 @@ static int it_open_subdir(sqfs_dir_iterator_t *base, sqfs_dir_iterator_t **out)
 		return ret;
 
 	sub = (iterator_t *)*out;
-	sub->parents = alloc_array(sizeof(sub->parents[0]),
-				   it->num_parents + 1);
-	if (sub->parents == NULL) {
-		*out = sqfs_drop(*out);
-		return SQFS_ERROR_ALLOC;
-	}
-
-	for (i = 0; i < it->num_parents; ++i)
-		sub->parents[i] = it->parents[i];
-
-	sub->parents[it->num_parents] = it->state.ent_ref;
-	sub->num_parents = it->num_parents + 1;
+	sub->tracker = sqfs_grab(it->tracker);
+	sub->pos.parent_ref = it->state.ent_ref;
 	return 0;
 }
 
@@ -197,7 +267,7 @@ static void it_destroy(sqfs_object_t *obj)
 	sqfs_drop(it->rd);
 	sqfs_drop(it->data);
 	sqfs_drop(it->xattr);
-	free(it->parents);
+	sqfs_drop(it->tracker);
 	sqfs_free(it);
 }
 
@@ -235,6 +305,7 @@ int sqfs_dir_iterator_create(sqfs_dir_reader_t *rd,
 
 	it->id = sqfs_grab(id);
 	it->rd = sqfs_grab(rd);
+	it->pos.parent_ref = ~((sqfs_u64)0);
 
 	if (data != NULL)
 		it->data = sqfs_grab(data);
